@@ -75,6 +75,8 @@ ObsOf(g) ==
        flat    |-> SetToSeq({ q \in Nodes \X Nodes : HasPair(g, q[1], q[2]) }),
        ids     |-> ids,
        cnt     |-> [i \in DOMAIN ids |-> <<ids[i], g.snap[ids[i]], 2>>],
+       ids2    |-> ids,
+       cnt2    |-> [i \in DOMAIN ids |-> <<ids[i], g.snap[ids[i]], 2>>],
        cntAt   |-> SetToSeq({ <<t, CountAt(g, t)[1], CountAt(g, t)[2]>> : t \in GridSet }),
        nn      |-> SetToSeq({ <<t, NNodes(g, t)>> : t \in GridSet }),
        avg     |-> IF ids = <<>> THEN <<>> ELSE <<SumOver(g, DOMAIN g.snap, 0), Len(ids)>>,
